@@ -224,6 +224,28 @@ def handleU (st : St) (n : Nat) (toks : List String) : Result := Id.run do
           else if v.returnsStored && iret != pre then
             let r := fail st n "C09" s!"refusal {ierr} did not return the stored checkpoint"
             st := r.st; outs := outs ++ r.out
+  -- C08: does this probe meet the hypotheses of `C08_honest_accepted_bytes`?  (non-vacuity of the theorem on the
+  -- implementation's own inputs; when they hold the model's verdict can only be `none` or a core refusal)
+  if probe == "1" then
+    match linfo with
+    | some l =>
+      match Wit.parse l cp with
+      | some (_, nn) =>
+        let shape := match nn.sigs, nn.unverified with
+          | [sg], [] => cp == nn.text ++ [B.nl] ++ Note.sigLine sg.name sg.b64
+          | _, _ => false
+        let signersOK := match cfgF.signers nn.text with
+          | some outs => outs.all (fun o => Note.isValidName o.name && o.sig != [] && decide (o.hash < 2 ^ 32) &&
+              Utf8.noteCharsOK o.name && !(l.verifier.name == o.name && l.verifier.hash == o.hash)) && decide (outs.length + 1 ≤ 100)
+          | none => false
+        if shape && signersOK && faults == "" then
+          st := st.bump "c08.theorem.hypotheses-hold"
+          if outF.err == .signFailed || outF.err == .noValidSig then
+            let r := fail st n "C08" "model contradicts theorem C08_honest_accepted_bytes (impossible)"
+            st := r.st; outs := outs ++ r.out
+        else st := st.bump "c08.theorem.hypotheses-not-met"
+      | none => st := st.bump "c08.theorem.hypotheses-not-met"
+    | none => pure ()
   -- C08: honest probe
   if probe == "1" && ierr != "none" then
     let preSize : Option Nat := match pre, linfo with
